@@ -14,11 +14,11 @@
   What the asio objects guarantee is the side condition `PS.ok`: a completion is delivered only
   for the operation that is outstanding, a read completion carries between 1 and `cap` bytes
   (TCP: the next bytes of the peer's stream — C05), a write to the origin is accepted for a
-  prefix of the buffer it was given. In particular no completion of an operation that was
-  started before `close_connection()` is delivered afterwards with success (the sockets were
-  closed: those operations complete with `operation_aborted`, which every callback ignores) —
-  see `C18_stale_*` in Props/C18.lean for what the code does when the simulated sockets
-  violate this (a completion already posted when the connection is closed).
+  prefix of the buffer it was given. Closing a socket completes its operations with
+  `operation_aborted`, which every callback ignores; a completion that was already posted with
+  success when `close_connection()` ran carries the old session number and is ignored as well
+  (`C18_stale_ignored`; the pinned tree had no such test: `C18_pinned_write_completion_after_close`),
+  so the bookkeeping simply forgets the operations of a closed connection.
 -/
 import SimVerif.HttpProxy
 
